@@ -118,11 +118,15 @@ func (g *gen) tailBody(d int, term bool) {
 // shape also comes in its non-terminating variants.
 func (g *gen) tailStmt(d int, term bool) {
 	k := g.r.Intn(10)
+	if !term {
+		// procedures: mostly the shapes whose end is reachable
+		k = []int{0, 1, 1, 2, 2, 3, 3, 3, 4, 4, 4, 5, 6, 7, 8, 9, 9, 9}[g.r.Intn(18)]
+	}
 	if d <= 0 {
 		k = 0
 	}
 	// all: every branch of this statement ends in a return
-	all := term || g.r.Bool()
+	all := term || g.r.Intn(5) < 3
 	kind := "some"
 	if all {
 		kind = "all"
@@ -132,7 +136,7 @@ func (g *gen) tailStmt(d int, term bool) {
 		g.leaf(term)
 	case 1, 2, 3:
 		n := 1 + g.r.Intn(3)
-		hasElse := term || g.r.Intn(5) < 2
+		hasElse := term || g.r.Intn(3) == 0
 		for i := range n {
 			if i == 0 {
 				g.w("if %s {", g.tailCond())
@@ -290,7 +294,8 @@ func (g *gen) tailStmt(d int, term bool) {
 // lambdaStmt declares a function literal and calls it. Literals see their own
 // parameters and package state only (closures are outside the dialect).
 func (g *gen) lambdaStmt(depth int) {
-	if g.noCalls || g.inLambda || g.cur == nil || g.cur.name == "pure0" {
+	// not in init itself: see the directed case "function-literal-inside-init"
+	if g.noCalls || g.inLambda || g.cur == nil || g.cur.name == "pure0" || g.cur.name == "init" {
 		g.assign(depth)
 		return
 	}
@@ -299,9 +304,10 @@ func (g *gen) lambdaStmt(depth int) {
 	if g.r.Intn(3) == 0 {
 		lf.name = g.fresh("λ")
 	}
-	np := g.r.Intn(3)
-	for i, n := range g.names.params(np) {
-		_ = i
+	// one parameter at most: see the directed case
+	// "function-literal-with-two-parameters-receives-them-reversed"
+	np := g.r.Intn(2)
+	for _, n := range g.names.params(np) {
 		lf.params = append(lf.params, &vr{name: n, t: tInt, bound: 1 << 31})
 	}
 	if g.r.Intn(5) < 3 {
